@@ -45,8 +45,8 @@ const zzNExpPeers = 11
 
 // hypothetical pod H
 type zzHyp struct {
-	pod  *zzWPod
-	nsL  map[string]string
+	pod     *zzWPod
+	nsL     map[string]string
 	isNewNs bool
 }
 
@@ -280,7 +280,6 @@ func ZZ_C06_PolicyInOtherNamespace() {
 	}
 }
 
-
 // C06/C07 with two policies sharing workloads: p1 selects every pod of ns1, p2 only app=a; both expose to the
 // entire cluster on (different, symbolic) TCP ports. Each workload's entries must reflect its own policies.
 func ZZ_C06_C07_TwoPolicies() {
@@ -316,13 +315,19 @@ func ZZ_C06_C07_TwoPolicies() {
 	if err != nil {
 		return
 	}
+	zzC07CheckWorkloads(g, ca, ing, x, [][2]string{{"ns1", "a"}, {"ns1", "b"}})
+}
+
+// zzC07CheckWorkloads: soundness and completeness of the exposure entries of the named workloads against every
+// hypothetical pod of zzGenHyp
+func zzC07CheckWorkloads(g *zzGen, ca *ConnlistAnalyzer, ing bool, x int64, workloads [][2]string) {
 	w := zzGenHyp(g)
 	h := w.Pods[len(w.Pods)-1]
 	hNs := w.nsLabels(h.Ns)
-	for _, name := range []string{"a", "b"} {
+	for _, wl := range workloads {
 		var rec ExposedPeer
 		for _, ep := range ca.ExposedPeers() {
-			if ep.ExposedPeer().String() == "ns1/"+name+"[Deployment]" {
+			if ep.ExposedPeer().String() == wl[0]+"/"+wl[1]+"[Deployment]" {
 				rec = ep
 			}
 		}
@@ -330,7 +335,7 @@ func ZZ_C06_C07_TwoPolicies() {
 		if rec == nil {
 			continue
 		}
-		self := g.pod("ns1", name)
+		self := g.pod(wl[0], wl[1])
 		entries := rec.IngressExposure()
 		dst, named := self, self
 		if !ing {
@@ -356,4 +361,49 @@ func ZZ_C06_C07_TwoPolicies() {
 			vf_Assert(vf_Implies(allowed, covered), "exposure-complete")
 		}
 	}
+}
+
+// the same rule text in policies of different namespaces: a rule without namespaceSelector means the policy's own
+// namespace, so the two rules are different requirements and each needs its own exposure entry
+func ZZ_C06_C07_SameRuleTwoNamespaces() {
+	g := zzBaseWorld(true, true)
+	ing := vf_Choose("dir", 2) == 0
+	peersOf := func(k int) []netv1.NetworkPolicyPeer {
+		switch k {
+		case 1: // any namespace, app=q
+			return []netv1.NetworkPolicyPeer{{NamespaceSelector: &metav1.LabelSelector{}, PodSelector: zzSel("app", "q")}}
+		case 2: // the policy's namespace, app=other
+			return []netv1.NetworkPolicyPeer{{PodSelector: zzSel("app", "other")}}
+		}
+		return []netv1.NetworkPolicyPeer{{PodSelector: zzSel("app", "q")}} // the policy's namespace, app=q
+	}
+	mk := func(ns, name string, peers []netv1.NetworkPolicyPeer, port int32) *netv1.NetworkPolicy {
+		np := zzNetpolObj(ns, name, netv1.NetworkPolicySpec{PodSelector: metav1.LabelSelector{MatchLabels: map[string]string{"app": "a"}}}).NetworkPolicy
+		ports := []netv1.NetworkPolicyPort{zzPortNum(corev1.ProtocolTCP, port)}
+		if ing {
+			np.Spec.Ingress = []netv1.NetworkPolicyIngressRule{{From: peers, Ports: ports}}
+		} else {
+			np.Spec.Egress = []netv1.NetworkPolicyEgressRule{{To: peers, Ports: ports}}
+			np.Spec.PolicyTypes = []netv1.PolicyType{netv1.PolicyTypeEgress}
+		}
+		return np
+	}
+	x1, x2 := zzPortVar("p1.port"), zzPortVar("p2.port")
+	p1 := mk("ns1", "p1", peersOf(vf_Choose("p1.peers", 3)), x1)
+	p2 := mk("ns2", "p2", peersOf(vf_Choose("p2.peers", 3)), x2)
+	if vf_Choose("order", 2) == 0 {
+		g.addNP(p1)
+		g.addNP(p2)
+	} else {
+		g.addNP(p2)
+		g.addNP(p1)
+	}
+	x := zzProbeX()
+	ca := NewConnlistAnalyzer(WithMuteErrsAndWarns(), WithExposureAnalysis())
+	_, _, err := ca.connsListFromParsedResources(g.Objs)
+	vf_Assert(err == nil, "exposure-analysis-succeeds")
+	if err != nil {
+		return
+	}
+	zzC07CheckWorkloads(g, ca, ing, x, [][2]string{{"ns1", "a"}, {"ns2", "c"}})
 }
